@@ -139,3 +139,140 @@ package ring
 //@   property C01 C02 C15
 //@   ensures result <==> (Operation.IsInstanceInStateHealthy(op, i.State) && ns(now) - i.Timestamp * 1000000000 <= heartbeatTimeout)
 //@   pure
+//@
+//@ # ---- C01/C02: replication strategy: healthy members, majority, exact tolerance ---------------
+//@ # flt is the list after filtering; idx maps its positions to positions of the input (strictly increasing),
+//@ # inv maps every healthy input position to its position in flt: together they say that flt is exactly the
+//@ # order-preserving sub-sequence of healthy members, so len(flt) is the number of healthy members.
+//@ func defaultReplicationStrategy.Filter
+//@   property C01 C02
+//@   ghost var gnow time.Time = havoc
+//@   ghost var idx total[int]int = havoc
+//@   ghost var inv total[int]int = havoc
+//@   ghost var p int = 0
+//@   ghost var ip int = 0
+//@   ghost var flt []InstanceDesc = instances
+//@   loop 0 init gnow := now
+//@   loop 0 invariant same(flt, instances) && same(gnow, now) && 0 <= i && i <= len(instances) && 0 <= p && p <= len(old(instances)) && len(instances) - i == len(old(instances)) - p
+//@   loop 0 invariant replicationFactor == max(old(replicationFactor), len(old(instances))) && minSuccess == replicationFactor / 2 + 1
+//@   loop 0 invariant forall j int :: i <= j && j < len(instances) ==> instances[j] == old(instances)[p + (j - i)]
+//@   loop 0 invariant forall j int :: 0 <= j && j < i ==> 0 <= idx[j] && idx[j] < p && instances[j] == old(instances)[idx[j]] && InstanceDesc.IsHealthy(old(instances)[idx[j]], op, heartbeatTimeout, gnow)
+//@   loop 0 invariant forall a, b int :: 0 <= a && a < b && b < i ==> idx[a] < idx[b]
+//@   loop 0 invariant forall q int :: 0 <= q && q < p && InstanceDesc.IsHealthy(old(instances)[q], op, heartbeatTimeout, gnow) ==> 0 <= inv[q] && inv[q] < i && idx[inv[q]] == q
+//@   loop 0 head ip := i
+//@   loop 0 end idx := i > ip ? store(idx, i - 1, p) : idx
+//@   loop 0 end inv := i > ip ? store(inv, p, i - 1) : inv
+//@   loop 0 end p := p + 1
+//@   loop 0 end flt := instances
+//@   # (1) flt is the healthy sub-sequence of the input, in order
+//@   ensures  subseq: (forall j int :: 0 <= j && j < len(flt) ==> 0 <= idx[j] && idx[j] < len(instances) && flt[j] == instances[idx[j]] && InstanceDesc.IsHealthy(instances[idx[j]], op, heartbeatTimeout, gnow)) &&
+//@              (forall a, b int :: 0 <= a && a < b && b < len(flt) ==> idx[a] < idx[b])
+//@   ensures  allhealthy: forall q int :: 0 <= q && q < len(instances) && InstanceDesc.IsHealthy(instances[q], op, heartbeatTimeout, gnow) ==> 0 <= inv[q] && inv[q] < len(flt) && idx[inv[q]] == q
+//@   # (2) fails precisely when fewer than a majority of max(RF, walked set) is healthy
+//@   ensures  fail: r2 != nil <==> len(flt) < max(replicationFactor, len(instances)) / 2 + 1
+//@   # (3) otherwise returns exactly the healthy members and tolerates healthy - majority failures
+//@   ensures  result: r2 == nil ==> r0 == flt && r1 == len(flt) - (max(replicationFactor, len(instances)) / 2 + 1) && r1 >= 0
+//@
+//@ func Ring.IsHealthy
+//@   property C02 C01
+//@   ensures result <==> InstanceDesc.IsHealthy(instance, op, r.cfg.HeartbeatTimeout, now)
+//@   pure
+//@
+//@ func Ring.canStopLooking
+//@   property C01
+//@   requires len(foundHostsPerZone) == len(totalHostsPerZone) && len(examinedHostsPerZone) == len(totalHostsPerZone)
+//@   ensures  result <==> (forall z int :: 0 <= z && z < len(totalHostsPerZone) ==> foundHostsPerZone[z] >= targetPerZone || examinedHostsPerZone[z] >= totalHostsPerZone[z])
+//@   loop 0 invariant forall z int :: 0 <= z && z < $i ==> foundHostsPerZone[z] >= targetPerZone || examinedHostsPerZone[z] >= totalHostsPerZone[z]
+//@   pure
+//@
+//@ # ---- C02: ring-wide read set ---------------------------------------------------------------
+//@ func Ring.GetReplicationSetForOperation
+//@   property C02
+//@   requires r.cfg.ReplicationFactor >= 1
+//@   ghost var gnow time.Time = havoc
+//@   ghost var zf set[string] = emptyset("")
+//@   ghost var wj total[string]int = havoc
+//@   ghost var hn int = 0
+//@   loop 0 init gnow := now
+//@   loop 0 invariant same(gnow, now) && !isnil(zoneFailures) && hn == len(healthyInstances) && hn <= $i
+//@   loop 0 invariant forall j int :: 0 <= j && j < len(healthyInstances) ==> InstanceDesc.IsHealthy(healthyInstances[j], op, r.cfg.HeartbeatTimeout, gnow)
+//@   loop 0 invariant forall id string :: $visited[id] && !InstanceDesc.IsHealthy(r.ringDesc.Ingesters[id], op, r.cfg.HeartbeatTimeout, gnow) ==> in(r.ringDesc.Ingesters[id].Zone, zoneFailures)
+//@   loop 0 invariant forall z string :: in(z, zoneFailures) ==> (exists id string :: $visited[id] && in(id, r.ringDesc.Ingesters) && r.ringDesc.Ingesters[id].Zone == z && !InstanceDesc.IsHealthy(r.ringDesc.Ingesters[id], op, r.cfg.HeartbeatTimeout, gnow))
+//@   loop 0 invariant forall id string :: $visited[id] && InstanceDesc.IsHealthy(r.ringDesc.Ingesters[id], op, r.cfg.HeartbeatTimeout, gnow) ==> 0 <= wj[id] && wj[id] < len(healthyInstances) && healthyInstances[wj[id]] == r.ringDesc.Ingesters[id]
+//@   loop 0 end wj := len(healthyInstances) > hn ? store(wj, $k, len(healthyInstances) - 1) : wj
+//@   loop 0 end hn := len(healthyInstances)
+//@   loop 1 invariant forall j int :: 0 <= j && j < len(filteredInstances) ==> InstanceDesc.IsHealthy(filteredInstances[j], op, r.cfg.HeartbeatTimeout, gnow) && !in(filteredInstances[j].Zone, zoneFailures)
+//@   # without zone-awareness: tolerance is exactly healthy - (max(N, RF) - RF/2); fails iff negative
+//@   ensures  nonzone_tolerance: r1 == nil && !r.cfg.ZoneAwarenessEnabled ==> r0.MaxErrors == len(r0.Instances) - (max(len(r.ringDesc.Ingesters), r.cfg.ReplicationFactor) - r.cfg.ReplicationFactor / 2) && r0.MaxErrors >= 0 && r0.MaxUnavailableZones == 0
+//@   # with zone-awareness: tolerated unavailable zones = min(Z, RF)/2 - failing zones; fails iff negative
+//@   ensures  zone_tolerance: r1 == nil && r.cfg.ZoneAwarenessEnabled ==> r0.MaxUnavailableZones == min(len(r.ringZones), r.cfg.ReplicationFactor) / 2 - len(zoneFailures) && r0.MaxUnavailableZones >= 0 && r0.MaxErrors == 0
+//@   ensures  zone_instances: r1 == nil && r.cfg.ZoneAwarenessEnabled ==> (forall j int :: 0 <= j && j < len(r0.Instances) ==> !in(r0.Instances[j].Zone, zoneFailures))
+//@   ensures  healthy: r1 == nil ==> (forall j int :: 0 <= j && j < len(r0.Instances) ==> InstanceDesc.IsHealthy(r0.Instances[j], op, r.cfg.HeartbeatTimeout, gnow))
+//@   ensures  flag: r1 == nil ==> r0.ZoneAwarenessEnabled == r.cfg.ZoneAwarenessEnabled
+//@   ensures  failing_zones: r1 == nil ==> (forall id string :: in(id, r.ringDesc.Ingesters) && !InstanceDesc.IsHealthy(r.ringDesc.Ingesters[id], op, r.cfg.HeartbeatTimeout, gnow) ==> in(r.ringDesc.Ingesters[id].Zone, zoneFailures))
+//@   modifies nothing
+//@
+//@ # ---- C02: the arithmetic of quorum intersection (set-theoretic pigeonhole is the trusted step) ------
+//@ # a = acknowledged writes needed = majority of max(RF, walked); r = answers needed by the ring-wide read;
+//@ # both sets live inside the n registered instances, so a + r > n forces a common instance.
+//@ lemma quorumIntersectsNonZone(n int, rf int, w int)
+//@   property C02
+//@   requires n >= 1 && rf >= 1 && 0 <= w && w <= n
+//@   ensures  (max(rf, w) / 2 + 1) + (max(n, rf) - rf / 2) >= n + 1
+//@
+//@ # zone-aware: acknowledged instances sit in pairwise distinct zones (one per zone in the walked set), at least
+//@ # majority(max(RF, walked)) of them; the read takes every instance of all but min(Z,RF)/2 zones.
+//@ lemma quorumIntersectsZone(z int, rf int, w int)
+//@   property C02
+//@   requires z >= 1 && rf >= 1 && 0 <= w
+//@   ensures  (max(rf, w) / 2 + 1) + (z - min(z, rf) / 2) >= z + 1
+//@
+//@ # ---- C01/C05: lookup over a well-formed ring: no panic, no inconsistent-token error ---------
+//@ # ringRep: the representation invariant established by setRingStateFromDesc (token list strictly sorted,
+//@ # every token has an owner entry, every owner is registered, every owner zone is a ring zone).
+//@ pred ringRep(r Ring) = r.ringDesc != nil && r.cfg.ReplicationFactor >= 1 && sortedStrict(r.ringTokens) &&
+//@      (forall i int :: 0 <= i && i < len(r.ringTokens) ==> in(r.ringTokens[i], r.ringInstanceByToken)) &&
+//@      (r.cfg.ZoneAwarenessEnabled ==> (forall i int :: 0 <= i && i < len(r.ringTokens) ==>
+//@            (exists z int :: 0 <= z && z < len(r.ringZones) && r.ringZones[z] == r.ringInstanceByToken[r.ringTokens[i]].Zone)))
+//@
+//@ func stringSet.len
+//@   property C01
+//@   ensures result == s.count
+//@   pure
+//@
+//@ func stringSet.contains
+//@   property C01
+//@   ensures !isnil(s.setMap) ==> (result <==> in(str, s.setMap))
+//@   ensures isnil(s.setMap) ==> (result <==> (exists i int :: 0 <= i && i < len(s.setSlice) && s.setSlice[i] == str))
+//@   pure
+//@
+//@ func stringSet.add
+//@   property C01
+//@   ensures s.count == old(s).count + 1
+//@   loop 0 invariant s.count == old(s).count + 1 && !isnil(s.setMap)
+//@
+//@ func newStringSet
+//@   property C01
+//@   ensures result != nil && result.count == 0 && isnil(result.setMap) && len(result.setSlice) == 0
+//@
+//@ func Ring.findInstancesForKey
+//@   property C01 C05
+//@   requires ringRep(r) && len(r.ringTokens) > 0 && replicationFactor >= 1
+//@   ensures  consistent: r1 == nil
+//@   ensures  bound: len(r0) <= len(r.ringTokens)
+//@   loop 0 invariant len(totalHostsPerZone) == len(r.ringZones) && len(examinedHostsPerZone) == len(r.ringZones) && len(foundHostsPerZone) == len(r.ringZones)
+//@   loop 1 invariant 0 <= iterations && iterations <= len(r.ringTokens) && 0 <= i && i <= len(r.ringTokens) && len(instances) <= iterations
+//@   loop 1 invariant r.cfg.ZoneAwarenessEnabled ==> len(totalHostsPerZone) == len(r.ringZones) && len(examinedHostsPerZone) == len(r.ringZones) && len(foundHostsPerZone) == len(r.ringZones)
+//@   loop 1 invariant distinctHosts != nil
+//@   modifies nothing
+//@
+//@ # Interface contract of ReplicationStrategy.Filter = the default strategy's proved postcondition (majority and slack)
+//@ assume func ReplicationStrategy.Filter
+//@   ensures r2 == nil ==> r1 == len(r0) - (max(replicationFactor, len(instances)) / 2 + 1) && r1 >= 0 && len(r0) <= len(instances)
+//@
+//@ func Ring.getReplicationSetForKey
+//@   property C01 C02 C05
+//@   requires ringRep(r)
+//@   ensures  empty: len(r.ringTokens) == 0 ==> r1 == ErrEmptyRing
+//@   ensures  slack: r1 == nil ==> r0.MaxErrors >= 0 && r0.MaxErrors <= len(r0.Instances) - (max(r.cfg.ReplicationFactor, 0) / 2 + 1) && len(r0.Instances) >= 1
+//@   modifies nothing
